@@ -143,6 +143,23 @@ CHECKS["C20"] = ("model_checking",
     "view equals the directory's table, that no discovery handler raised and that each change of a callback-subscribed item fired a callback.",
     "Trusted: TLC, vlib/agentrt.py, the channel interception in vlib/props/C20.py. Agent (un)registration and agent subscriptions are exercised through C27 only. The "
     "specification is at the level of the API and of the convergence statement; the message handlers themselves are not modelled step by step.", "DESIGN.md section 4 C20")
+
+CHECKS["C21"] = ("exploration",
+    "thread identity of every computation callback recorded in real-thread orchestrated runs (vlib/threadrt.py) and judged by TLC (Judge_C21)",
+    "Real-thread solves (run_local_thread_dcop + deploy + run, as the solve command) of TLC-generated DCOPs with dpop, dsa, mgm, mgm2, maxsum, adsa under "
+    "oneagent and random distributions and a perturbed switch interval; every start / on_message / pause of every computation added to an agent, every periodic "
+    "action and every discovery callback registered from a computation callback is recorded with its thread; TLC checks that each runs on the hosting agent's "
+    "own thread and that no agent has callbacks active on two threads at once.",
+    "Trusted: TLC, vlib/threadrt.py (class-level wrappers installed from the harness). Thread schedules are those the OS produces: exploration level.",
+    "DESIGN.md section 4 C21")
+CHECKS["C22"] = ("model_checking",
+    "orchestrated DPOP solves of TLC-generated DCOPs through the real Orchestrator/OrchestratedAgents (deterministic agent-step runtime with seeded interleavings, plus real threads), outcome judged by TLC against Dcop.tla (Judge_C22)",
+    "TLC (Gen_Dcop) draws DCOPs over 17 shapes with their optimum; each is solved with DPOP through the real orchestrator under oneagent / adhoc / gh_cgdp / random valid "
+    "distributions on 1-3 agents, in vlib/orchrt.py (real objects, threads not started, seeded random interleaving of agent loop iterations through registration, "
+    "deployment, run, value collection, end-of-computation and stop) and in real-thread runs with perturbed switch interval; TLC checks status OK (not TIMEOUT, not "
+    "stuck), every computation reported its end, complete assignment, cost = Dcop!Opt, reported (violation, cost) = Dcop!SolutionCost.",
+    "Trusted: TLC (Dcop.tla), vlib/orchrt.py and vlib/agentrt.py for the simulated runs. Interleavings are sampled (seeded), not exhausted; there is no behavioural "
+    "TLA+ model of the orchestration protocol yet (DESIGN.md section 5).", "DESIGN.md section 4 C22")
 NOT_YET = "check not built yet in this snapshot (work in progress, see DESIGN.md section 9)"
 
 fix_commits = subprocess.run(["git", "-C", "/repo", "log", "--format=%h %s", "aeaae91..HEAD"], capture_output=True, text=True).stdout.splitlines()
